@@ -843,6 +843,7 @@ impl<T> Sender<T> {
                     }
                     return Err(SendErrorTimeout::Closed);
                 }
+                fp!(TIMED_BEFORE_CANCEL);
                 {
                     let mut internal = acquire_internal(&self.internal);
                     if internal.cancel_send_signal(&sig) {
@@ -931,6 +932,7 @@ impl<T> Sender<T> {
                     *data = Some(unsafe { d.assume_init() });
                     return Err(SendErrorTimeout::Closed);
                 }
+                fp!(TIMED_BEFORE_CANCEL);
                 {
                     let mut internal = acquire_internal(&self.internal);
                     if internal.cancel_send_signal(&sig) {
@@ -1231,6 +1233,7 @@ impl<T> Receiver<T> {
                 if sig.is_terminated() {
                     return Err(ReceiveErrorTimeout::Closed);
                 }
+                fp!(TIMED_BEFORE_CANCEL);
                 {
                     let mut internal = acquire_internal(&self.internal);
                     if internal.cancel_recv_signal(&sig) {
